@@ -51,24 +51,27 @@ func copyMsg(m []byte) *[]byte {
 }
 
 // readMsgUdp reads dns frame from r. r typically should be a udp connection.
-// It uses a 4kb rx buffer and ignores any payload that is too small for a dns msg.
+// It ignores any payload that is too small for a dns msg.
 // If no error, the length of payload always >= 12 bytes.
 func readMsgUdp(r io.Reader) (*[]byte, error) {
-	// TODO: Make this configurable?
-	// 4kb should be enough.
-	payload := pool.GetBuf(4095)
+	// A datagram that is larger than the rx buffer is cut silently (the rest of
+	// it is discarded by the kernel). Read with the maximum dns msg size, so that
+	// a large reply (the query may advertise a large EDNS0 udp payload size) is
+	// returned as it is. The rx buffer goes back to the pool right away.
+	rb := pool.GetBuf(dns.MaxMsgSize)
+	defer pool.ReleaseBuf(rb)
 
 readAgain:
-	n, err := r.Read(*payload)
+	n, err := r.Read(*rb)
 	if err != nil {
-		pool.ReleaseBuf(payload)
 		return nil, err
 	}
 	if n < dnsHeaderLen {
 		goto readAgain
 	}
-	*payload = (*payload)[:n]
-	return payload, err
+	payload := pool.GetBuf(n)
+	copy(*payload, (*rb)[:n])
+	return payload, nil
 }
 
 func setDefaultGZ[T constraints.Float | constraints.Integer](i *T, s, d T) {
